@@ -889,7 +889,7 @@ fn numeric_string() -> impl Strategy<Value = TV> {
 
 pub fn bytes_value(prof: Profile) -> BoxedStrategy<TV> {
     if matches!(prof, Profile::Termination) {
-        return prop_oneof![30 => bytes_value_base(prof), 1 => deep_nested_text()].boxed();
+        return prop_oneof![45 => bytes_value_base(prof), 2 => deep_nested_text(), 1 => deep_nested_xml()].boxed();
     }
     bytes_value_base(prof)
 }
@@ -991,6 +991,34 @@ pub fn deep_nested(outer_array: bool) -> BoxedStrategy<TV> {
                 };
             }
             v
+        })
+        .boxed()
+}
+
+/// text of a deeply nested XML document: a chain of single-child elements (every sixth level
+/// with an attribute or a sibling), 7+ bytes per level
+pub fn deep_nested_xml() -> BoxedStrategy<TV> {
+    (6usize..=90, any::<u64>(), prop_oneof![Just("x"), Just(""), Just("1")])
+        .prop_map(|(depth, shape, leaf)| {
+            let mut open = String::new();
+            let mut close = String::new();
+            for level in 0..depth {
+                match (shape >> (level % 64)) & 7 {
+                    0 => {
+                        open.push_str("<a k=\"v\">");
+                        close.insert_str(0, "</a>");
+                    }
+                    1 => {
+                        open.push_str("<a><b/>");
+                        close.insert_str(0, "</a>");
+                    }
+                    _ => {
+                        open.push_str("<a>");
+                        close.insert_str(0, "</a>");
+                    }
+                }
+            }
+            TV::Str(format!("{open}{leaf}{close}"))
         })
         .boxed()
 }
